@@ -12,10 +12,19 @@
 // and, for buffers of hundreds to thousands of slots (the scale stream, see big.go):
 //
 //	B <init> <op>;<op>;…  |  <rec0>;<rec1>;…      batched ops A<k> U<k> P<k> L<k> c o<j>; bounded records
+//	X <init> <op>;<op>;…  |  <rec0>;<rec1>;…      the same on 2^15 .. 2^16+1 slots, records without the hook field, spec only (big.go: xMode)
+//
+// and, for other element types than int (round 5, see typed.go: byte, bool, int16, [3]byte, float32,
+// *int, string, a 40-byte struct; elements travel as integer codes, 0 = the zero value):
+//
+//	T<letter> <init> <op>;<op>;…  |  <rec0>;<rec1>;…      syntax and records of H lines
 //
 // init: z (zero value), n (New()), s<k> (NewSize(k)); s<k>! = NewSize(k) with k > 2^48 panicked:
 // the allocation was refused by the runtime (oracle annotation, recomputed on replay).
 // op:   a<v> Add(v)   u<v> Push(v)   p Pop()   l PopLast()   c Clear()   k<i> Peek(i), any int
+//
+//	e  re-entrant and interleaved iteration: Each with a callback that observes the same queue at
+//	   every element (nested Each included), then two iter.Pull iterations alive at once (typed.go)
 //
 //	An Add/Push that regrew the buffer carries the capacity chosen by append as an ORACLE
 //	annotation: a<v>^<cap> (read through the verif hook after the call).  Annotations found in
@@ -30,7 +39,9 @@
 // (v≠0,false).  A panic anywhere in the operation or its observations gives the record
 // panic:<kind> and ends the history.  Elements are 1,2,3,… in order of insertion (0 is the zero
 // value), so a lost, duplicated or reordered element is visible.  The slice returned by Slice is
-// overwritten with -7 before the other observers run (aliasing with the ring would show).
+// overwritten with -7 (the type's poison value) before the other observers run (aliasing with the
+// ring would show); the last three such slices are kept, and a later write into one of them (a Slice
+// that hands out a buffer twice) marks the next Slice field with !ALIAS.
 package main
 
 import (
@@ -40,16 +51,20 @@ import (
 	"strings"
 
 	"github.com/creachadair/mds/queue"
+	"verif/harness/internal/elem"
 	"verif/harness/internal/tr"
 )
 
-type sess struct {
-	q    *queue.Queue[int]
+type sess[T any] struct {
+	kind string        // first word of the trace line: H (queue.Queue[int]) or T<letter> (see typed.go)
+	cd   elem.Codec[T] // element codes of the trace <-> values of T
+	q    *queue.Queue[T]
 	init string
 	ops  []string
 	recs []string
 	next int
 	dead bool
+	kept [][]T // the last slices returned by Slice (poisoned)
 	tags map[string]bool
 	// what the previous mutating operation did (for the sequence tags)
 	prevEmptiedByPopLast, prevEmptiedByPop bool
@@ -70,16 +85,18 @@ func ints(xs []int) string {
 	return tr.Ints(xs)
 }
 
-func newSess(init string) *sess {
-	s := &sess{init: init, next: 1, tags: map[string]bool{}}
+func newSess(init string) *sess[int] { return newSessT("H", intCodec, init) }
+
+func newSessT[T any](kind string, cd elem.Codec[T], init string) *sess[T] {
+	s := &sess[T]{kind: kind, cd: cd, init: init, next: 1, tags: map[string]bool{}}
 	size := 0
 	res := tr.Catch(func() {
 		switch {
 		case init == "z":
-			var q queue.Queue[int]
+			var q queue.Queue[T]
 			s.q = &q
 		case init == "n":
-			s.q = queue.New[int]()
+			s.q = queue.New[T]()
 		case strings.HasPrefix(init, "s"):
 			k, err := strconv.Atoi(strings.TrimSuffix(init[1:], "!"))
 			if err != nil {
@@ -87,7 +104,7 @@ func newSess(init string) *sess {
 			}
 			s.init = "s" + strconv.Itoa(k)
 			size = k
-			s.q = queue.NewSize[int](k)
+			s.q = queue.NewSize[T](k)
 		default:
 			panic("bad init " + init)
 		}
@@ -110,46 +127,58 @@ func newSess(init string) *sess {
 const allocMayFail = 1 << 48
 
 // observe renders every observable of the queue (Slice first, then poisoned).
-func (s *sess) observe(ret string) string {
+func (s *sess[T]) observe(ret string) string {
 	q := s.q
 	h, n, l, _ := q.VerifState()
 	ln := q.Len()
 	var b strings.Builder
 	fmt.Fprintf(&b, "%s/%d,%d,%d/%d,%s/", ret, h, n, l, ln, tr.B(q.IsEmpty()))
+	dec := s.cd.Dec
 	sl := q.Slice()
 	slTxt := "nil"
 	if sl != nil {
-		slTxt = ints(sl)
-		for i := range sl {
-			sl[i] = -7
+		slTxt = ints(decAll(dec, sl))
+	}
+	// slices returned by earlier Slice calls (overwritten with the poison value then) must not have
+	// been written to since: a Slice that hands out one buffer twice, or a view of the ring, shows here
+kept:
+	for _, old := range s.kept {
+		for _, x := range old {
+			if dec(x) != dec(s.cd.Poison) {
+				slTxt += "!ALIAS"
+				s.kept = nil
+				break kept
+			}
 		}
 	}
-	fmt.Fprintf(&b, "%d/%s/", q.Front(), slTxt)
+	for i := range sl {
+		sl[i] = s.cd.Poison
+	}
+	if len(sl) > 0 {
+		if len(s.kept) >= 3 {
+			s.kept = s.kept[1:]
+		}
+		s.kept = append(s.kept, sl)
+	}
+	fmt.Fprintf(&b, "%d/%s/", dec(q.Front()), slTxt)
 	var all []int
-	q.Each(func(v int) bool { all = append(all, v); return true })
+	q.Each(func(v T) bool { all = append(all, dec(v)); return true })
 	b.WriteString(ints(all) + "/")
 	var some []int
 	m := ln / 2
-	q.Each(func(v int) bool { some = append(some, v); return len(some) <= m })
+	q.Each(func(v T) bool { some = append(some, dec(v)); return len(some) <= m })
 	b.WriteString(ints(some) + "/")
 	for k := -(ln + 2); k <= ln+1; k++ {
 		v, ok := q.Peek(k)
 		if k > -(ln + 2) {
 			b.WriteByte(',')
 		}
-		switch {
-		case ok:
-			b.WriteString(strconv.Itoa(v))
-		case v == 0:
-			b.WriteByte('x')
-		default:
-			b.WriteString("!" + strconv.Itoa(v))
-		}
+		b.WriteString(peekText(dec(v), ok))
 	}
 	return b.String()
 }
 
-func (s *sess) record(ret string) {
+func (s *sess[T]) record(ret string) {
 	var rec string
 	res := tr.Catch(func() { rec = s.observe(ret) })
 	if res != "" {
@@ -159,13 +188,13 @@ func (s *sess) record(ret string) {
 	s.recs = append(s.recs, rec)
 }
 
-func (s *sess) state() (head, n, l int) {
+func (s *sess[T]) state() (head, n, l int) {
 	head, n, l, _ = s.q.VerifState()
 	return
 }
 
 // do runs one operation (code a,u,p,l,c; v is the element for a/u) and records it.
-func (s *sess) do(code byte, v int) {
+func (s *sess[T]) do(code byte, v int) {
 	if s.dead {
 		return
 	}
@@ -174,26 +203,32 @@ func (s *sess) do(code byte, v int) {
 	res := tr.Catch(func() {
 		switch code {
 		case 'a':
-			s.q.Add(v)
+			s.q.Add(s.cd.Enc(v))
 		case 'u':
-			s.q.Push(v)
+			s.q.Push(s.cd.Enc(v))
 		case 'p':
 			x, ok := s.q.Pop()
-			ret = strconv.Itoa(x) + ":" + tr.B(ok)
+			ret = strconv.Itoa(s.cd.Dec(x)) + ":" + tr.B(ok)
 		case 'l':
 			x, ok := s.q.PopLast()
-			ret = strconv.Itoa(x) + ":" + tr.B(ok)
+			ret = strconv.Itoa(s.cd.Dec(x)) + ":" + tr.B(ok)
 		case 'c':
 			s.q.Clear()
 		case 'k':
 			x, ok := s.q.Peek(v)
-			ret = strconv.Itoa(x) + ":" + tr.B(ok)
+			ret = strconv.Itoa(s.cd.Dec(x)) + ":" + tr.B(ok)
+		case 'e':
+			ret = reentrant(s.q, s.cd.Dec)
 		default:
 			panic("bad op")
 		}
 	})
 	txt := string(code)
-	if code == 'a' || code == 'u' || code == 'k' {
+	if code == 'a' || code == 'u' {
+		// the code the element decodes to (a replayed input may name a code the type cannot hold)
+		txt += strconv.Itoa(s.cd.Dec(s.cd.Enc(v)))
+	}
+	if code == 'k' {
 		txt += strconv.Itoa(v)
 	}
 	if res != "" {
@@ -240,11 +275,16 @@ func (s *sess) do(code byte, v int) {
 	if code == 'a' && s.prevEmptiedByPopLast {
 		s.tags["poplast-to-empty-then-add"] = true
 	}
-	if code != 'k' {
+	if code != 'k' && code != 'e' {
 		s.prevEmptiedByPopLast = code == 'l' && n0 == 1
 		s.prevEmptiedByPop = code == 'p' && n0 == 1
 	}
 	switch code {
+	case 'e':
+		s.tags["reentrant-each"] = true
+		if n0 > 1 && h0+n0 > l0 {
+			s.tags["reentrant-each-while-wrapped"] = true
+		}
 	case 'k':
 		switch {
 		case v == math.MinInt:
@@ -309,16 +349,17 @@ func (s *sess) do(code byte, v int) {
 	}
 }
 
-func (s *sess) add()       { s.do('a', s.next); s.next++ }
-func (s *sess) push()      { s.do('u', s.next); s.next++ }
-func (s *sess) pop()       { s.do('p', 0) }
-func (s *sess) popLast()   { s.do('l', 0) }
-func (s *sess) clear()     { s.do('c', 0) }
-func (s *sess) peek(k int) { s.do('k', k) }
+func (s *sess[T]) add()       { s.do('a', s.cd.Code(s.next)); s.next++ }
+func (s *sess[T]) push()      { s.do('u', s.cd.Code(s.next)); s.next++ }
+func (s *sess[T]) each()      { s.do('e', 0) }
+func (s *sess[T]) pop()       { s.do('p', 0) }
+func (s *sess[T]) popLast()   { s.do('l', 0) }
+func (s *sess[T]) clear()     { s.do('c', 0) }
+func (s *sess[T]) peek(k int) { s.do('k', k) }
 
 // extremePeeks asks for offsets at and around the ends of the int range (machine-int audit:
 // Peek does `n += q.n` for negative n) and just outside [-Len, Len).
-func (s *sess) extremePeeks(r *tr.Rand) {
+func (s *sess[T]) extremePeeks(r *tr.Rand) {
 	if s.dead {
 		return
 	}
@@ -330,15 +371,15 @@ func (s *sess) extremePeeks(r *tr.Rand) {
 	}
 }
 
-func (s *sess) input() string {
+func (s *sess[T]) input() string {
 	ops := "-"
 	if len(s.ops) > 0 {
 		ops = strings.Join(s.ops, ";")
 	}
-	return "H " + s.init + " " + ops
+	return s.kind + " " + s.init + " " + ops
 }
 
-func (s *sess) emit(w *tr.W, tags ...string) {
+func (s *sess[T]) emit(w *tr.W, tags ...string) {
 	nontrivial := false
 	for t := range s.tags {
 		tags = append(tags, t)
@@ -348,13 +389,13 @@ func (s *sess) emit(w *tr.W, tags ...string) {
 }
 
 // replay runs a (possibly annotated) input; annotations are recomputed.
-func replay(in string) *sess {
+func replayT[T any](kind string, cd elem.Codec[T], in string) *sess[T] {
 	f := strings.Fields(in)
-	if len(f) < 2 || f[0] != "H" {
-		s := &sess{init: "?", recs: []string{"bad-input"}, tags: map[string]bool{}}
+	if len(f) < 2 || f[0] != kind {
+		s := &sess[T]{kind: kind, cd: cd, init: "?", recs: []string{"bad-input"}, tags: map[string]bool{}}
 		return s
 	}
-	s := newSess(f[1])
+	s := newSessT(kind, cd, f[1])
 	if len(f) < 3 || f[2] == "-" {
 		return s
 	}
@@ -623,7 +664,7 @@ func genU(o *tr.Opts, w *tr.W, r *tr.Rand) {
 var inits = []string{"z", "n", "s0", "s1", "s2", "s3", "s4", "s5", "s6", "s7", "s8", "s9"}
 
 // fillTo adds at the chosen end(s) until the ring is exactly full (n == len(vs)).
-func fillTo(s *sess, r *tr.Rand, end int) {
+func fillTo[T any](s *sess[T], r *tr.Rand, end int) {
 	for i := 0; i < 200 && !s.dead; i++ {
 		_, n, l := s.state()
 		if n >= l {
@@ -638,7 +679,7 @@ func fillTo(s *sess, r *tr.Rand, end int) {
 	}
 }
 
-func drain(s *sess, r *tr.Rand, how int) {
+func drain[T any](s *sess[T], r *tr.Rand, how int) {
 	for i := 0; i < 400 && !s.dead; i++ {
 		_, n, _ := s.state()
 		if n == 0 {
@@ -1003,9 +1044,16 @@ func gen(o *tr.Opts, w *tr.W) {
 
 	// 6. the scale stream: buffers of hundreds to thousands of slots (B lines, see big.go)
 	genScale(o, w, r)
+
+	// 7. other element types (T lines), every constructor, first insertion by Push or Add, the
+	//    drained queue, re-entrant traversals (typed.go); run for int (H lines) too
+	for _, k := range kinds {
+		k.gen(o, w, r)
+	}
 }
 
-const rule = "Histories of Add/Push/Pop/PopLast/Clear/Peek(any int) on queue.Queue[int] from the zero value, New() and NewSize(0..9, some 10..40; negative sizes down to math.MinInt): " +
+const rule = "T lines (round 5): queue.Queue at byte, bool, int16, [3]byte, float32, *int, string and a 40-byte struct (element codes mapped to values in the harness, records as on H lines, append's capacity for THAT type as oracle annotation): every constructor (zero value, New, NewSize(0..9,16,17)) x first insertion by Push or by Add x nothing/one/to capacity/one beyond x drain by Pop, PopLast or both x all observers on the drained queue x reuse from the other end x Clear x reuse; every history over Add/Push/Pop/PopLast/Clear to length 5 (z), 4 (s1), 3 (n, s0, s2) (thorough +1); the capacities the type really gets (byte 8,16; [3]byte 2,5,10,21; float32 2,4,8,16; string/pointer/struct 1,2,4,8,16) exactly full with the head in the middle, regrown from either end; random mixes; op e = re-entrant Each (callback calls Len/IsEmpty/Front/Peek/nested Each/Slice of the same queue at every element) and two iter.Pull iterations zipped; the same streams on int (H lines).  X lines: B histories on exactly 2^15-1 .. 2^16+1 slots, spec only (quick 2, thorough 32).  " +
+	"Histories of Add/Push/Pop/PopLast/Clear/Peek(any int) on queue.Queue[int] from the zero value, New() and NewSize(0..9, some 10..40; negative sizes down to math.MinInt): " +
 	"every history up to length 5 (quick) / 7 (thorough) from capacities 0..4; aimed histories that move the head into the middle, " +
 	"fill the ring exactly (capacity read through the verif hook) from either end or both, regrow from either end, drain from either end; " +
 	"Push on a fresh preallocated ring (head wraps below 0), PopLast with the newest element at every index around the boundary; " +
@@ -1025,11 +1073,15 @@ func main() {
 				replayU(f).emit(w, "replayed")
 				continue
 			}
-			if f := strings.Fields(in); len(f) >= 2 && f[0] == "B" {
+			if f := strings.Fields(in); len(f) >= 2 && (f[0] == "B" || f[0] == "X") {
 				replayB(f).emit(w, "replayed")
 				continue
 			}
-			replay(in).emit(w, "replayed")
+			if f := strings.Fields(in); len(f) >= 1 && kindOf(f[0]) != nil {
+				kindOf(f[0]).replay(in).emit(w, "replayed")
+				continue
+			}
+			replayT("H", intCodec, in).emit(w, "replayed")
 		}
 	} else {
 		gen(o, w)
